@@ -9,7 +9,8 @@ LEVEL = "proof"
 RULE = ("product of device states: mode {bootloader, signer, ui-heartbeat, unknown(0xFF), other(5)} x onboarded "
         "{yes, no, error status} x UI / signer version triples around 5.4.1 x retries {0,1,2,3,255} (0..255 in "
         "thorough) x echo {ok, bad} x PIN {matches, differs} x needs-change {no, yes} x post-unlock mode "
-        "{signer, bootloader, ui-heartbeat} x platform {Ledger, SGX, TCP}; boundary subset in quick, larger "
+        "{signer, bootloader, ui-heartbeat} x platform {Ledger, SGX, TCP} x outcome of the PIN change command "
+        "{accepted, refused 0x69A0, other status, timeout, write error, read error}; boundary subset in quick, larger "
         "grid in thorough; non-trivial = every state; distinct by state tuple")
 EXPLANATION = ("Theorems C09_* prove for every device script that the unlock command is sent at most once and only "
                "after the safe-state answers, and characterise when the bring-up returns normally; the model is "
@@ -45,12 +46,20 @@ def states(tier, rng):
                     rs = retries if (mode == 2 and ob == "yes" and supports(uiv) and not echo_bad
                                      and sv == (5, 4, 1)) else [3]
                     for r in rs:
-                        out.append(dict(mode=mode, onboarded=ob, kind=kind, echo_bad=echo_bad, pin_ok=pin_ok,
-                                        needs_change=needs_change, post=post, uiv=uiv, sv=sv, retries=r))
+                        # the PIN change itself may fail: refused, other status, timeout, link errors
+                        faults = [None]
+                        if needs_change and mode == 2 and ob == "yes" and pin_ok and not echo_bad and r == 3 \
+                                and uiv == (5, 4, 1) and sv == (5, 4, 1):
+                            faults = [None, 0x69A0, 0x6A01, ("T",), ("W",), ("R",)]
+                        for nf in faults:
+                            out.append(dict(mode=mode, onboarded=ob, kind=kind, echo_bad=echo_bad, pin_ok=pin_ok,
+                                            needs_change=needs_change, post=post, uiv=uiv, sv=sv, retries=r,
+                                            newpin_fault=nf))
     if tier == "quick":
         rng.shuffle(out)
         keep = [s for s in out if s["retries"] != 3 or s["mode"] != 2][:400]
-        keep += [s for s in out if s["mode"] == 2 and s["retries"] == 3][:500]
+        keep += [s for s in out if s["mode"] == 2 and s["retries"] == 3 and s["newpin_fault"] is None][:500]
+        keep += [s for s in out if s["newpin_fault"] is not None]
         out = keep
     return out
 
@@ -70,6 +79,8 @@ def run(ctx):
         d.retries = st["retries"]
         d.pin = b"1234567a"
         d.after_exit = [st["post"], st["post"]]
+        if st["newpin_fault"] is not None:
+            d.inject[(0xA5 if st["kind"] == "sgx" else 0x08, "*")] = st["newpin_fault"]
         mgr_pin = b"1234567a" if st["pin_ok"] else b"abcdefg1"
         case = {"kind": st["kind"], "pin": (mgr_pin, st["needs_change"]), "rand": [b"Zz9Zz9Zz"],
                 "fs": [], "connects": [], "device": d}
